@@ -12,3 +12,4 @@ import MimicProps.C02
 #print axioms MimicProps.C02.clear_accepts_iff_check
 #print axioms MimicProps.C02.nologin_never_accepts
 #print axioms MimicProps.C02.session_user_is_vouched
+#print axioms MimicProps.C02.xor_is_code
